@@ -165,7 +165,7 @@ def run(chk) -> None:
     }
     few = {"upperConst", "annUpperConst", "constItem", "staticItem", "enumMember", "enumDiscriminant"}
     one = {"upperCallArg", "upperFuncBody"}
-    items = {l: [(s, v) for s in ss for v in range(1, 10) if (v != 8 or l == "rust") and (s not in few or v in (2, 3, 4))
+    items = {l: [(s, v) for s in ss for v in range(1, 11) if (v != 8 or l == "rust") and (s not in few or v in (2, 3, 4))
                  and (s not in one or v == 2)]
              for l, ss in slots.items()}
     for c in cases:   # cross-check the mirror against TLC: every expected item must be in the mirrored universe
